@@ -67,7 +67,7 @@ sim::Json GenOpts::to_json() const {
     j["allow_msw"] = allow_msw; j["allow_history"] = allow_history; j["allow_groups"] = allow_groups;
     j["restart_safe_conditions"] = restart_safe_conditions; j["nonmidnight"] = nonmidnight; j["step_events"] = step_events;
     j["action_inline_safe"] = action_inline_safe; j["vector_target"] = vector_target; j["units"] = units;
-    j["fmtout"] = fmtout; j["unifout"] = unifout; j["esmry"] = esmry; j["rptonly"] = rptonly; j["sumthin"] = sumthin; j["date_conditions"] = date_conditions; j["nested_parens"] = nested_parens; j["stop_safe"] = stop_safe; j["weltarg_safe"] = weltarg_safe; j["cond_well_bias"] = cond_well_bias; j["min_wells"] = min_wells; j["reparent_groups"] = reparent_groups; j["late_edits"] = late_edits; j["geo_kws"] = geo_kws; j["family_snippets"] = family_snippets; j["family_static_free"] = family_static_free; j["tuning_vfp"] = tuning_vfp; j["udq_unary_minus"] = udq_unary_minus; if (per_step_kws) j["per_step_kws"] = true; if (frac_dates) j["frac_dates"] = true; if (wecon_full) j["wecon_full"] = true;
+    j["fmtout"] = fmtout; j["unifout"] = unifout; j["esmry"] = esmry; j["rptonly"] = rptonly; j["sumthin"] = sumthin; j["date_conditions"] = date_conditions; j["nested_parens"] = nested_parens; j["stop_safe"] = stop_safe; j["weltarg_safe"] = weltarg_safe; j["cond_well_bias"] = cond_well_bias; j["min_wells"] = min_wells; j["reparent_groups"] = reparent_groups; j["late_edits"] = late_edits; j["geo_kws"] = geo_kws; j["family_snippets"] = family_snippets; j["family_static_free"] = family_static_free; j["tuning_vfp"] = tuning_vfp; j["udq_unary_minus"] = udq_unary_minus; if (per_step_kws) j["per_step_kws"] = true; if (frac_dates) j["frac_dates"] = true; if (wecon_full) j["wecon_full"] = true; if (gconinje) j["gconinje"] = true;
     return j;
 }
 GenOpts GenOpts::from_json(const Json& j0) {
@@ -82,7 +82,7 @@ GenOpts GenOpts::from_json(const Json& j0) {
     o.step_events = j.getb("step_events", o.step_events); o.action_inline_safe = j.getb("action_inline_safe", o.action_inline_safe);
     o.vector_target = static_cast<int>(j.geti("vector_target", 0)); o.units = j.gets("units", "");
     o.fmtout = static_cast<int>(j.geti("fmtout", -1)); o.unifout = static_cast<int>(j.geti("unifout", -1)); o.esmry = j.getb("esmry", false);
-    o.rptonly = j.getb("rptonly", false); o.sumthin = j.getb("sumthin", false); o.date_conditions = j.getb("date_conditions", o.date_conditions); o.nested_parens = j.getb("nested_parens", o.nested_parens); o.stop_safe = j.getb("stop_safe", o.stop_safe); o.cond_well_bias = j.getd("cond_well_bias", 0.0); o.min_wells = static_cast<int>(j.geti("min_wells", 1)); o.reparent_groups = j.getb("reparent_groups", false); o.late_edits = j.getb("late_edits", false); o.geo_kws = j.getb("geo_kws", false); o.family_snippets = j.getb("family_snippets", false); o.family_static_free = j.getb("family_static_free", false); o.tuning_vfp = j.getb("tuning_vfp", false); o.udq_unary_minus = j.getb("udq_unary_minus", false); o.weltarg_safe = j.getb("weltarg_safe", false); o.per_step_kws = j.getb("per_step_kws", false); o.frac_dates = j.getb("frac_dates", false); o.wecon_full = j.getb("wecon_full", false);  // absent in replay files written before the knob existed
+    o.rptonly = j.getb("rptonly", false); o.sumthin = j.getb("sumthin", false); o.date_conditions = j.getb("date_conditions", o.date_conditions); o.nested_parens = j.getb("nested_parens", o.nested_parens); o.stop_safe = j.getb("stop_safe", o.stop_safe); o.cond_well_bias = j.getd("cond_well_bias", 0.0); o.min_wells = static_cast<int>(j.geti("min_wells", 1)); o.reparent_groups = j.getb("reparent_groups", false); o.late_edits = j.getb("late_edits", false); o.geo_kws = j.getb("geo_kws", false); o.family_snippets = j.getb("family_snippets", false); o.family_static_free = j.getb("family_static_free", false); o.tuning_vfp = j.getb("tuning_vfp", false); o.udq_unary_minus = j.getb("udq_unary_minus", false); o.weltarg_safe = j.getb("weltarg_safe", false); o.per_step_kws = j.getb("per_step_kws", false); o.frac_dates = j.getb("frac_dates", false); o.wecon_full = j.getb("wecon_full", false); o.gconinje = j.getb("gconinje", false);  // absent in replay files written before the knob existed
     return o;
 }
 
@@ -448,6 +448,13 @@ struct Gen {
         for (auto& w : m.wells) if (rng.chance(0.35)) { Kw k; k.name = "WEFAC"; k.recs.push_back({q(w.name), num(efac())}); m.block0.push_back(k); }
         for (auto& g : groups) if (rng.chance(0.3)) { Kw k; k.name = "GEFAC"; k.recs.push_back({q(g), num(efac())}); m.block0.push_back(k); }
         if (o.tuning_vfp) m.block0.push_back(vfpprod_kw(0));
+        if (o.gconinje && !m.group_names().empty() && rng.chance(0.7)) {
+            auto gn = m.group_names(); Kw k; k.name = "GCONINJE";
+            const int nr = rng.chance(0.3) ? 2 : 1;
+            for (int r2 = 0; r2 < nr; ++r2) k.recs.push_back({q(gn[rng.below(gn.size())]), q(r2 == 0 && rng.chance(0.6) ? "WATER" : "GAS"), q(rng.chance(0.6) ? "RATE" : "RESV"), num(std::round(rng.real(500, 20000))), num(std::round(rng.real(500, 20000)))});
+            if (nr == 2 && k.recs[0][0] == k.recs[1][0] && k.recs[0][1] == k.recs[1][1]) k.recs.pop_back();
+            m.block0.push_back(k);
+        }
         for (auto& g : groups) if (rng.chance(0.15)) { Kw k; k.name = "GCONPROD"; k.recs.push_back({q(g), q("ORAT"), num(rate() * 3), "3*", q("RATE")}); m.block0.push_back(k); }
         if (rng.chance(0.3) && m.wells.size() >= 2) { Kw k; k.name = "WLIST"; std::vector<std::string> r = {q("*LST1"), q("NEW")}; for (auto& w : m.wells) if (rng.chance(0.6)) r.push_back(q(w.name)); if (r.size() > 2) { k.recs.push_back(r); m.block0.push_back(k); } }
         int nudq = o.max_udq > 0 ? static_cast<int>(rng.range(0, o.max_udq)) : 0;
